@@ -292,7 +292,18 @@ def r4_callsites(ck, repo, nf):
                   "" if ok else "the vmapped GAE must receive the buffer's rewards and terminations", loc(mi, app))
             # values un-merged to (T, N) and successor values = values shifted by one step + bootstrap of the last observation
             v, nv = vals[1], vals[2]
-            ok = v.startswith("reshape(value_function(") and v.endswith("shape[:2][0], rollout_buffer.buffer['obs'].shape[:2][1])")
+            # structural reading: reshape(value_function(<obs with the two leading axes merged>), T, N) with (T, N) the leading axes of the observations
+            vp = nf.poly(app.args[1], osc, n.id) if len(app.args) > 1 else None
+            mv = nf.meta.get(vp.single_atom() or "", {}) if vp is not None else {}
+            ok = False
+            if mv.get("fn", "").split(".")[-1] == "reshape" and len(mv.get("args", [])) >= 2:
+                inner, dims = mv["args"][0], mv["args"][1:]
+                if len(dims) == 1 and dims[0].elems is not None:
+                    dims = dims[0].elems
+                dtx = [d_.canon() for d_ in dims]
+                ok = inner.canon().startswith("value_function(") and len(dtx) == 2 and dtx[0].endswith(".shape[0]") and dtx[1].endswith(".shape[1]") and dtx[0][:-3] == dtx[1][:-3]
+            elif vp is not None and not v.startswith("value_function("):
+                raise AnalysisError(f"{outer_q}: values passed to the per-environment GAE `{v[:100]}` (unrecognised form)")
             ck.ob("R4-per-trajectory", outer_q, "values-unmerged", ok, f"values = {v[:110]}", "" if ok else "values computed on the flattened batch must be reshaped back to (T, N) before the per-environment GAE", loc(mi, app))
             ok = nv.startswith("concatenate((") and "[1:]" in nv and "expand_dims(value_function(last_observation), 0)" in nv and "axis=0" in nv
             ck.ob("R4-per-trajectory", outer_q, "successor-values-shifted", ok, f"next_values = {nv[:150]}", "" if ok else "successor values must be values[1:] followed by the bootstrap value of the last observation along time", loc(mi, app))
